@@ -79,6 +79,35 @@ impl Stream {
             Stream::Explicit(v) => Some(v.len() as u64),
         }
     }
+    /// The `size_hint` the iterator over this stream reports: always *valid* (lower <= length
+    /// <= upper), but in one of several shapes real iterators have - exact, unknown, a loose
+    /// upper bound beyond 2^32 (a `u64` range mapped, `take(1 << 32)`), `usize::MAX`, and for
+    /// endless streams `(usize::MAX, None)` like `repeat()`.
+    pub fn hint(&self) -> (usize, Option<usize>) {
+        let sel = match self {
+            Stream::Seq { start, .. } => (*start >> 1) as u64,
+            Stream::Hash { seed, .. } => (*seed >> 1) as u64,
+            Stream::Explicit(v) => v.len() as u64,
+        };
+        match self.len() {
+            Some(l) => {
+                let l = l.min(usize::MAX as u64) as usize;
+                match sel % 6 {
+                    0 => (l, Some(l)),
+                    1 => (0, None),
+                    2 => (0, Some(l.saturating_add(1 << 32))),
+                    3 => (l.min(1), Some(((1usize << 32) + (l & 3)).max(l))),
+                    4 => (0, Some(usize::MAX)),
+                    _ => (l / 2, Some(l.saturating_mul(2).saturating_add(1))),
+                }
+            }
+            None => match sel % 3 {
+                0 => (usize::MAX, None),
+                1 => (0, None),
+                _ => (1 << 33, None),
+            },
+        }
+    }
     /// whether the iterator over this stream keeps yielding (poison) after its first `None`:
     /// a deterministic half of the finite streams
     pub fn non_fused(&self) -> bool {
